@@ -67,9 +67,15 @@ def discharge_all(obligs, outdir, timeout=20, jobs=16, all_solvers=False):
     smts = []
     for o in obligs:
         smts.append(to_smt2(o.hyps, o.goal))
+    # identical queries (same text) are decided once
+    uniq = {}
+    for s in smts:
+        uniq.setdefault(s, None)
+    keys = list(uniq)
     with ThreadPoolExecutor(max_workers=jobs) as ex:
-        res = list(ex.map(lambda s: decide(s, outdir, timeout, all_solvers=all_solvers), smts))
-    return res
+        for k, r in zip(keys, ex.map(lambda s: decide(s, outdir, timeout, all_solvers=all_solvers), keys)):
+            uniq[k] = r
+    return [uniq[s] for s in smts]
 
 
 def get_model(smt_path, names, timeout=10):
